@@ -11,6 +11,7 @@ generated tree through generated path arguments and restores it into a pre-popul
 Direct oracle: restored tree == expected tree (bytes, mtime_ns, set of paths; untouched bystanders), computed by an
 independent walk of the arguments.
 """
+import contextlib
 import dataclasses
 import json
 import multiprocessing as mp
@@ -90,6 +91,10 @@ def expected_records(args):
     return out
 
 
+class _PastFailed(Exception):
+    pass
+
+
 class RecChunker:
     def __init__(self, inner):
         self.inner = inner
@@ -119,6 +124,7 @@ def run_case(arg):
     from .. import common
     common.use_rebuilt_chunker()
     r = rng_for(seed, 'C01', idx)
+    R.PERSISTENT_LOOP = None
     cfg = gen_config(r)
     only_empty = r.random() < 0.06
     res = {'idx': idx, 'cfg': {k: v for k, v in cfg.items()}, 'violations': [], 'model': [], 'notes': {}}
@@ -177,6 +183,34 @@ def run_case(arg):
             lst = [str(p) for p in flatten_paths([Path(a).resolve(strict=True)])]
             expanded.append([ids.setdefault(p, len(ids)) for p in lst])
         res['model'].append(({'op': 'layout.flatten', 'expanded': expanded}, {'files': [ids[p] for p in flat_impl]}, 'flatten'))
+        # ---- the client's past: the object that takes the snapshot may be a long-lived one that already ran other commands
+        # (snapshot of the same / an overlapping tree, then delete of it or clean, or a restore) — none of which may matter
+        past = []
+        if r.random() < 0.3:
+            import asyncio
+            R.PERSISTENT_LOOP = asyncio.new_event_loop()
+            res['_loop'] = True
+            with R.quiet(), contextlib.suppress(_PastFailed):
+                for _ in range(r.choice([1, 1, 2])):
+                    kind = r.choice(['snapshot+delete', 'snapshot+delete', 'snapshot+foreign-delete+clean', 'snapshot+restore'])
+                    past.append(kind)
+                    sub = args if r.random() < 0.6 or not rels else [src / r.choice(rels)]
+                    s0 = R.snapshot(repo, sub, note='past')
+                    if kind == 'snapshot+delete':
+                        R.run(repo.delete_snapshots([s0.name], confirm=False))
+                    elif kind == 'snapshot+foreign-delete+clean':
+                        other = R.unlock(backend, key=key, concurrent=cfg['concurrent'])      # another process removes it
+                        R.run(other.delete_snapshots([s0.name], confirm=False))
+                        R.run(repo.clean())
+                    else:
+                        try:
+                            R.restore(repo, sc.dir('past_tgt'), snapshot_regex='^' + s0.name + '$')
+                        except Exception as e:  # noqa: BLE001
+                            res['violations'].append(('restore:raises', f'restore of the snapshot just taken by a long-lived Repository object (earlier commands: {past}) raises '
+                                                      f'{type(e).__name__}: {str(e)[:120]}', {}))
+                            raise _PastFailed()
+                        R.run(repo.delete_snapshots([s0.name], confirm=False))
+            rec.chunks, rec.pieces = [], []
         # ---- snapshot
         snap = R.snapshot(repo, args, note='n')
         sfiles = {f['path']: f for f in snap.data['files']}
@@ -213,8 +247,24 @@ def run_case(arg):
         bystanders = {'unrelated/keep.me': (b'keep', 10 ** 18 + 1), 'top.txt': (b'', 10 ** 18 + 2)}
         R.write_tree(tgt, pre)
         R.write_tree(tgt, bystanders)
-        repo2 = R.unlock(backend, key=key, concurrent=cfg['concurrent'])
-        out = R.restore(repo2, tgt)
+        repo2 = repo if (past and r.random() < 0.5) else R.unlock(backend, key=key, concurrent=cfg['concurrent'])
+        try:
+            out = R.restore(repo2, tgt)
+        except Exception as e:  # noqa: BLE001
+            out = None
+            res['violations'].append(('restore:raises', f'restore of the snapshot just taken (client past: {past or "none"}; restoring through {"the same" if repo2 is repo else "a fresh"} '
+                                      f'Repository object) raises {type(e).__name__}: {str(e)[:120]}', {}))
+        if res.pop('_loop', False):
+            try:
+                R.PERSISTENT_LOOP.close()
+            except Exception:  # noqa: BLE001
+                pass
+            R.PERSISTENT_LOOP = None
+        if out is None:
+            res['nontrivial'] = False
+            res['summary'] = {'files': len(exp), 'args': len(args), 'restore': 'raised', 'past': past, 'params': [cfg['chunking']['min_length'], cfg['chunking']['max_length']]}
+            res['dist'] = ['restore-raised']
+            return res
         got = R.read_tree(tgt)
         want = {os.fsencode(k): v for k, v in bystanders.items()}
         for p, (data, mt) in exp.items():
@@ -252,7 +302,7 @@ def run_case(arg):
                        'dup-args' if len(set(map(str, args))) < len(args) or len(args) > 1 else 'single-arg',
                        'only-empty' if exp and not nonempty else ('has-empty' if len(nonempty) < len(exp) else 'no-empty'),
                        'pre:longer' if any(len(v[0]) > len(exp['/' + k][0]) for k, v in pre.items()) else 'pre:other',
-                       'max%4=' + str(cfg['chunking']['max_length'] % 4)]
+                       'max%4=' + str(cfg['chunking']['max_length'] % 4)] + ['client-past:' + k for k in past] + (['client-past:none'] if not past else [])
     return res
 
 
